@@ -54,3 +54,58 @@ Fixpoint guarded_len (st : state) (ops : list (op * nat)) : nat :=
   | [] => 0
   end.
 Definition guard_count (cs : list case) : N := N.of_nat (fold_left (fun a c => a + guarded_len (init NV) (fst c)) cs 0).
+
+(* ================= mapping block ================= *)
+Definition rowview := (list Z * bool * nat)%type.          (* elements, dotted, array label *)
+Definition mcase := ((mfun * list (list Z) * lastcol * nat * Z) *
+                     (list rowview * list rowview * list (list Z) * list (list Z)))%type.
+(* label of an array: the index of the first item (non-empty inner lists, then rows) lying on it *)
+Fixpoint first_index (a : nat) (l : list nat) : nat :=
+  match l with [] => 0 | b :: l' => if Nat.eqb a b then 0 else S (first_index a l') end.
+Definition arr_of (o : obj) : option nat := match o with ORef s => Some (s_arr s) | _ => None end.
+Fixpoint somes {A} (l : list (option A)) : list A :=
+  match l with [] => [] | Some x :: l' => x :: somes l' | None :: l' => somes l' end.
+Definition m_views (h : oheap) (inner rows : list obj) : list (option rowview) :=
+  let arrs := somes (map arr_of (inner ++ rows)) in
+  map (fun r => match row_view h r with
+                | Some (zs, d, a, _) => Some (zs, d, first_index a arrs)
+                | None => None end) rows.
+Definition rowview_eqb (a b : rowview) : bool :=
+  let '(za, da, la) := a in let '(zb, db, lb) := b in
+  list_eqb Z.eqb za zb && Bool.eqb da db && Nat.eqb la lb.
+Definition orowview_eqb (a : option rowview) (b : rowview) : bool :=
+  match a with Some x => rowview_eqb x b | None => false end.
+Fixpoint list_eqb2 {A B} (eqb : A -> B -> bool) (a : list A) (b : list B) : bool :=
+  match a, b with [], [] => true | x :: a', y :: b' => eqb x y && list_eqb2 eqb a' b' | _, _ => false end.
+Definition inner_ints (h : oheap) (o : obj) : list Z :=
+  match o with ORef s => match canon (ocontents h s) with Some (zs, _) => zs | None => [] end | _ => [] end.
+Definition row_eqb (a b : list Z * bool) : bool := list_eqb Z.eqb (fst a) (fst b) && Bool.eqb (snd a) (snd b).
+Definition strip (v : rowview) : list Z * bool := let '(zs, d, _) := v in (zs, d).
+Definition last_ints (c : lastcol) : list (list Z) := match c with LInts l => [l] | LLists _ => [] end.
+Definition last_lists (c : lastcol) : list (list Z) := match c with LInts _ => [] | LLists ll => ll end.
+
+Definition check_mcase (c : mcase) : N :=
+  let '((F, fc, last, j, v), (obs1, obs2, inner2, outer2)) := c in
+  let '(h0, cols) := mk_input fc last in
+  let inner := match last with LInts _ => [] | LLists _ => List.last cols [] end in
+  let '(h, _, rows) := map_run F h0 cols in
+  let h' := row_setcar h rows j v in
+  let agree := list_eqb2 orowview_eqb (m_views h inner rows) obs1 &&
+               list_eqb2 orowview_eqb (m_views h' inner rows) obs2 &&
+               list_eqb (list_eqb Z.eqb) (map (inner_ints h') inner) inner2 in
+  let spec := spec_rows F fc last in
+  let spec_ok := list_eqb row_eqb (map strip obs1) spec &&
+                 list_eqb row_eqb (map strip obs2) (spec_setcar spec j v) &&
+                 list_eqb (list_eqb Z.eqb) inner2 (last_lists last) &&
+                 list_eqb (list_eqb Z.eqb) outer2 (fc ++ last_ints last) in
+  let g := map_supported F fc last in
+  if agree then (if g && negb spec_ok then 3%N else 0%N)
+  else if g && negb spec_ok then 2%N else 1%N.
+Fixpoint check_all_map_from (i : N) (cs : list mcase) : list (N * N) :=
+  match cs with
+  | [] => []
+  | c :: cs' => let r := check_mcase c in (if N.eqb r 0 then [] else [(i, r)]) ++ check_all_map_from (N.succ i) cs'
+  end.
+Definition check_all_map := check_all_map_from 0%N.
+Definition map_guard_count (cs : list mcase) : N :=
+  N.of_nat (length (filter (fun c : mcase => let '((F, fc, last, _, _), _) := c in map_supported F fc last) cs)).
